@@ -1,6 +1,6 @@
 (* C18 -- proofs about the timestamp model: relative error of [rnd53], exactness of
    xml -> py -> xml, sub-millisecond py -> xml -> py. *)
-From Coq Require Import List ZArith Bool Lia ZifyBool String.
+From Coq Require Import List ZArith Bool Lia ZifyBool String QArith Qabs.
 From SDC Require Import Scalars.Lex Scalars.Timestamp.
 Import ListNotations.
 Open Scope Z_scope.
@@ -211,6 +211,20 @@ Proof.
   subst W V D. split.
   - apply (mul_lt_cancel _ _ b2 Hb2). nia.
   - apply (mul_lt_cancel _ _ b2 Hb2). nia.
+Qed.
+
+(* the same statement with rational values: |x' - x| < 1/1000 *)
+Definition frQ (x : Z * Z) : Q := Qmake (fst x) (Z.to_pos (snd x)).
+
+Lemma ts_py_xml_py_Q : forall a b, 0 <= a -> 0 < b -> a * 1000 <= 2 ^ 50 * b ->
+  (Qabs (frQ (ts_to_py (ts_to_xml (a, b))) - frQ (a, b)) < 1 # 1000)%Q.
+Proof.
+  intros a b Ha Hb Hr. destruct (ts_py_xml_py a b Ha Hb Hr) as [Hb3 [L U]].
+  set (x' := ts_to_py (ts_to_xml (a, b))) in *.
+  unfold frQ, Qminus, Qplus, Qopp, Qabs, Qlt. simpl.
+  rewrite Pos2Z.inj_mul, !Z2Pos.id by assumption.
+  clearbody x'. set (p := fst x') in *. set (q := snd x') in *. clearbody p q.
+  destruct (Z.abs_spec (p * b + - a * q)) as [[_ ->]|[_ ->]]; lia.
 Qed.
 
 (* ---------------------------------------------------------------- the code before the repair *)
